@@ -341,7 +341,14 @@ pub fn main_idents(args: &[String]) -> i32 {
             for d in api::DIALECTS {
                 match api::compile(&src, Some(d)) {
                     api::Outcome::Ok(sql) => {
-                        ds.push(json!({"d": d, "compiled": true, "tok": ident_token(d, &sql, pos), "sql": sql}));
+                        let tok = ident_token(d, &sql, pos);
+                        // the same statement as the default options print it (format = true): the same identifier token
+                        let (fmt_same, fmt_sql) = match api::compile_formatted(&src, Some(d)) {
+                            api::Outcome::Ok(fsql) => (ident_token(d, &fsql, pos) == tok, fsql),
+                            api::Outcome::Err(e) => (false, format!("ERROR {:?}", e.inner.first().map(|m| m.reason.clone()))),
+                            api::Outcome::Panic { msg, .. } => (false, format!("PANIC {msg}")),
+                        };
+                        ds.push(json!({"d": d, "compiled": true, "tok": tok, "sql": sql, "fmt_same": fmt_same, "fmt_sql": fmt_sql}));
                         if d == "sqlite" {
                             // objects of exactly that name hold the marker; decoys hold something else
                             let conn = rusqlite::Connection::open_in_memory().expect("sqlite");
@@ -361,8 +368,8 @@ pub fn main_idents(args: &[String]) -> i32 {
                             }
                         }
                     }
-                    api::Outcome::Err(e) => ds.push(json!({"d": d, "compiled": false, "tok": {"found": false, "value": "", "quoted": false, "q": 0}, "sql": e.inner.first().map(|m| m.reason.clone())})),
-                    api::Outcome::Panic { msg, .. } => ds.push(json!({"d": d, "compiled": false, "tok": {"found": false, "value": "", "quoted": false, "q": 0}, "sql": format!("PANIC {msg}")})),
+                    api::Outcome::Err(e) => ds.push(json!({"d": d, "compiled": false, "tok": {"found": false, "value": "", "quoted": false, "q": 0}, "sql": e.inner.first().map(|m| m.reason.clone()), "fmt_same": true, "fmt_sql": ""})),
+                    api::Outcome::Panic { msg, .. } => ds.push(json!({"d": d, "compiled": false, "tok": {"found": false, "value": "", "quoted": false, "q": 0}, "sql": format!("PANIC {msg}"), "fmt_same": true, "fmt_sql": ""})),
                 }
             }
             writeln!(out, "{}", json!({"event":"Ident","id":id,"name":n,"pos":pos,"src":src,"sqlite":sqlite,"dialects":ds})).unwrap();
